@@ -162,9 +162,16 @@ extern struct op more_ops[];
 #ifdef WITH_TS
 extern struct op ts_ops[];
 #endif
+#ifdef WITH_THR
+extern struct op thr_ops[];
+#endif
 #ifdef WITH_H5
 extern struct op h5_ops[];
 #endif
+
+/* the library's verification hook (sz.h, -DSZ_VERIF): a no-op unless an op installs a scheduler (ops_thr.c) */
+void (*szv_yield_fn)(int) = NULL;
+void szv_yield(int point) { if (szv_yield_fn) szv_yield_fn(point); }
 
 /* SZV_HEAP_PRIME=<w>: before every case, allocate and free blocks of many sizes filled with the 32-bit
  * word w, so that the library's next malloc()s of those sizes return memory holding plausible stale values
@@ -206,6 +213,9 @@ int main(int argc, char** argv)
 		prime_heap();
 		for (struct op* o = base_ops; o->name && !found; o++) if (!strcmp(o->name, opname)) { o->fn(n, args); found = 1; }
 		for (struct op* o = more_ops; o->name && !found; o++) if (!strcmp(o->name, opname)) { o->fn(n, args); found = 1; }
+#ifdef WITH_THR
+		for (struct op* o = thr_ops; o->name && !found; o++) if (!strcmp(o->name, opname)) { o->fn(n, args); found = 1; }
+#endif
 #ifdef WITH_TS
 		for (struct op* o = ts_ops; o->name && !found; o++) if (!strcmp(o->name, opname)) { o->fn(n, args); found = 1; }
 #endif
